@@ -9,7 +9,7 @@ import unicodedata
 
 from hypothesis import strategies as st
 
-from vlib import model, project
+from vlib import model, project, scratch
 from vlib.runner import CaseResult, Violation
 
 ID = "C19"
@@ -218,7 +218,7 @@ def run_where(case):
     viols, labels = [], {"where"}
     desc = expected_desc(case)
     R = model.Resolved(desc)
-    base = tempfile.mkdtemp(prefix="gwf19", dir="/dev/shm" if os.path.isdir("/dev/shm") else None)
+    base = tempfile.mkdtemp(prefix="gwf19", dir=scratch.base())
     base = os.path.realpath(base)
     proj_dir = os.path.join(base, "proj")
     other = os.path.join(base, "elsewhere", "deep")
